@@ -33,6 +33,8 @@ def skeletons(tier, seed):
     d3 = [(p, [a, b, c], body, bc, pay) for p in PREFIX[:2] for a in OPENERS for b in OPENERS for c in OPENERS for (body, bc, pay) in INNER]
     # every depth-2 chain whose innermost body is empty or a single filler (a lone opener / element as the last item)
     out += [("", [a, b], body, bc, pay) for a in OPENERS for b in OPENERS for (body, bc, pay) in (INNER[1:2] if tier == 'quick' else INNER[:2])]
+    # ... and the same chains without any filler after the openers (a lone opener as the last branch / list item)
+    out += [("NOFILL", [a, b], "", "", False) for a in OPENERS for b in OPENERS]
     if tier == "quick":
         out += rnd.sample(d2, 80) + rnd.sample(d3, 30)
     else:
@@ -48,7 +50,10 @@ def build(tier, seed, known):
     sk = skeletons(tier, seed)
     excl = known_exclusions(known, "closers")
     for idx, (prefix, chain, body, bc, pay) in enumerate(sk):
-        text = prefix + "".join(o + ("E" if i % 2 else "") for i, (o, c) in enumerate(chain)) + body
+        if prefix == "NOFILL":
+            text = "".join(o for o, c in chain) + body
+        else:
+            text = prefix + "".join(o + ("E" if i % 2 else "") for i, (o, c) in enumerate(chain)) + body
         closers = bc + "".join(c for o, c in reversed(chain))
         closed = text + closers
         # python expression building the closed program from the holes e (filler) and p (payload)
